@@ -33,7 +33,7 @@ pub const ACCOUNTS: &[(u64, &str)] = &[
 ];
 /// address used for id 0 (not a contract, owns nothing)
 pub const NOBODY: &str = "nocontract";
-pub const LEDGER_IDS: [u64; 16] = [0, 1, 2, 3, 100, 101, 102, 103, 104, 105, 106, 110, 111, 120, 121, 130];
+pub const LEDGER_IDS: [u64; 20] = [0, 1, 2, 3, 4, 10, 11, 12, 100, 101, 102, 103, 104, 105, 106, 110, 111, 120, 121, 130];
 pub const ALLOW_IDS: [u64; 7] = [101, 102, 103, 104, 105, 106, 110];
 pub const ICE: u64 = 105;
 pub const ROL: u64 = 106;
